@@ -132,10 +132,26 @@ def table():
         print(f"| {os.path.basename(d)} | {files} | {what} | {', '.join(m.get('caught_by') or []) or 'MISSED'} | {first} | {m.get('first_run', '')} |")
 
 
+def design():
+    """rewrite the table between the SEEDED-TABLE markers of DESIGN.md"""
+    import io
+    import contextlib
+    buf = io.StringIO()
+    with contextlib.redirect_stdout(buf):
+        table()
+    path = os.path.join(VERIF, "DESIGN.md")
+    text = open(path, encoding="utf-8").read()
+    b, e = "<!-- SEEDED-TABLE-BEGIN -->", "<!-- SEEDED-TABLE-END -->"
+    i, j = text.index(b) + len(b), text.index(e)
+    open(path, "w", encoding="utf-8").write(text[:i] + "\n" + buf.getvalue() + text[j:])
+
+
 def main():
     a = sys.argv[1:]
     if a and a[0] == "table":
         return table()
+    if a and a[0] == "design":
+        return design()
     if a and a[0] == "import":
         do_import(a[1], a[2] if len(a) > 2 else "")
     elif a and a[0] == "run":
